@@ -63,7 +63,7 @@ var quoteCfgs = []Cfg{{}, {Unsafe: true}, {XHTML: true}, {Exts: "tskl"}, {Exts: 
 func init() {
 	register(&Component{
 		Name: "quote",
-		Rule: "documents without tab/CR (corpus, mutants, generated, adversarial; tabs and CRs stripped), each under {core,GFM}x{safe,unsafe,XHTML}, with the marker applied 1..3 times; spec examples are additionally checked against spec.json's expected HTML; non-trivial = the document has >= 2 lines or a container/leaf block other than a paragraph; distinct = distinct (configuration, document)",
+		Rule: "documents without tab/CR (corpus, mutants, generated, adversarial; tabs and CRs stripped; reference links whose 940..1001-byte labels run over 2..8 lines), each under {core,GFM}x{safe,unsafe,XHTML}, with the marker applied 1..3 times; spec examples are additionally checked against spec.json's expected HTML; non-trivial = the document has >= 2 lines or a container/leaf block other than a paragraph; distinct = distinct (configuration, document)",
 		Gen:  genQuote,
 		Impl: implQuote,
 		Scope: func(tier string) string {
@@ -112,6 +112,31 @@ func genQuote(tier string, rng *RNG, emit func(Case)) {
 	for i, e := range SpecExamples() {
 		_ = i
 		emit(Case{Op: "spec", Args: []string{fmt.Sprint(e.Example)}})
+	}
+	// directed: multi-line constructs whose SIZE is next to a limit of the inline parsers (a link label may have 999
+	// characters): inside a quote the source span of a label that runs over several lines also holds the markers, its
+	// value does not. Shortcut, collapsed, full and image references with labels of 940..1001 bytes over 2..8 lines.
+	for _, total := range []int{940, 960, 985, 995, 997, 998, 999, 1000, 1001} {
+		for _, k := range []int{2, 3, 5, 8} {
+			var multi, single []byte
+			per := (total - (k - 1)) / k
+			for i := 0; i < k; i++ {
+				w := per
+				if i == k-1 {
+					w = total - (k-1) - per*(k-1)
+				}
+				if i > 0 {
+					multi = append(multi, '\n')
+					single = append(single, ' ')
+				}
+				multi = append(multi, bytes.Repeat([]byte{byte('a' + i%3)}, w)...)
+				single = append(single, bytes.Repeat([]byte{byte('a' + i%3)}, w)...)
+			}
+			def := "\n\n[" + string(single) + "]: /u\n"
+			for fi, doc := range []string{"[" + string(multi) + "]" + def, "x [" + string(multi) + "][] y" + def, "[t][" + string(multi) + "]" + def, "![" + string(multi) + "]" + def} {
+				emit(Case{Op: "q", Args: []string{fmt.Sprint((fi + k) % len(quoteCfgs)), fmt.Sprint(1 + (fi+total)%3), hx([]byte(doc))}})
+			}
+		}
 	}
 	DocStream(rng, len(CorpusDocs())+n, func(kind string, d []byte) {
 		if kind == "corpus" {
